@@ -304,6 +304,7 @@ func (l *TCPListener) Port() int     { return l.addr.Port }
 func (l *TCPListener) Backlog() int  { return len(l.backlog) }
 
 type half struct {
+	hb      vs.SyncObj // data written happens-before the read that returns it
 	buf     []byte
 	wclosed bool // writer side closed: reader sees EOF after draining
 	rclosed bool // reader side gone: writer gets EPIPE
@@ -335,6 +336,13 @@ func (h *Host) pair(src, dst *TCPAddr) (*StreamConn, *StreamConn) {
 	a.Peer, b.Peer = b, a
 	h.Conns = append(h.Conns, a, b)
 	return a, b
+}
+
+// Pair creates a connected pair of endpoints that did not come through a listener.
+func (h *Host) Pair(src, dst string) (*StreamConn, *StreamConn) {
+	sa, _ := ResolveTCPAddr("tcp", src)
+	da, _ := ResolveTCPAddr("tcp", dst)
+	return h.pair(sa, da)
 }
 
 func refused(network string, a net.Addr) error {
@@ -431,6 +439,9 @@ func (c *StreamConn) Read(p []byte) (int, error) {
 	case c.closed:
 		return 0, &net.OpError{Op: "read", Net: "tcp", Source: c.local, Addr: c.remote, Err: net.ErrClosed}
 	case len(c.rd.buf) > 0:
+		if t := vs.Me(); t != nil {
+			c.rd.hb.Acquire(t)
+		}
 		n := copy(p, c.rd.buf)
 		c.rd.buf = c.rd.buf[n:]
 		if len(c.rd.buf) == 0 {
@@ -439,6 +450,9 @@ func (c *StreamConn) Read(p []byte) (int, error) {
 		c.In += int64(n)
 		return n, nil
 	case c.rd.wclosed:
+		if t := vs.Me(); t != nil {
+			c.rd.hb.Acquire(t)
+		}
 		return 0, io.EOF
 	default:
 		return 0, &net.OpError{Op: "read", Net: "tcp", Source: c.local, Addr: c.remote, Err: timeoutErr{}}
@@ -489,6 +503,9 @@ func (c *StreamConn) Write(p []byte) (int, error) {
 			if n > len(p) {
 				n = len(p)
 			}
+			if t := vs.Me(); t != nil {
+				c.wr.hb.Release(t)
+			}
 			c.wr.buf = append(c.wr.buf, p[:n]...)
 			c.Out += int64(n)
 			total += n
@@ -508,6 +525,9 @@ func (c *StreamConn) Close() error {
 	}
 	c.closed = true
 	c.ClosedAt = c.h.x.Now()
+	if t := vs.Me(); t != nil {
+		c.wr.hb.Release(t)
+	}
 	c.wr.wclosed = true
 	c.rd.rclosed = true
 	return nil
